@@ -205,15 +205,17 @@ fn classify(src: &str, e: &Expr) -> Result<Vec<Option<bool>>, String> {
             span: proc_macro2::Span::call_site(),
         }));
         out.push(Some(attr.starts_with(". class (move ||")));
-        match syn::parse_str::<Root>(&format!("div(class={src}, data-x={src}, prop:value={src}) {{ ({src}) }}")) {
+        match syn::parse_str::<Root>(&format!("div(class={src}, data-x={src}, prop:value={src}, \"data-q\"={src}) {{ ({src}) }}")) {
             Ok(root) => {
                 let t = squash(cg.root(&root));
                 out.push(Some(t.contains("children (:: std :: vec ! [:: sycamore :: rt :: View :: from_dynamic (move ||")));
                 out.push(Some(t.contains(". class (move ||")));
                 out.push(Some(t.contains(". attr (\"data-x\" , move ||")));
                 out.push(Some(t.contains(". prop (\"value\" , move ||")));
+                // every spelling of an attribute name: the quoted one too
+                out.push(Some(t.contains(". attr (\"data-q\" , move ||")));
             }
-            Err(_) => out.extend([None, None, None, None]),
+            Err(_) => out.extend([None, None, None, None, None]),
         }
         out
     })
@@ -239,7 +241,7 @@ fn exec_src(src: &str) -> Option<(String, String, Option<String>, bool)> {
             let all_static = known.iter().all(|x| !*x);
             let obs = if all_dyn { "dyn".to_string() } else if all_static { "static".to_string() } else { format!("mixed{:?}", sites) };
             let verdict = if ce && !all_dyn {
-                Some(format!("[static-with-eval] `{src}` contains an evaluation outside closures but is emitted as a static value (sites child,attr,view-child,view-attr,view-hyphen,view-prop = {:?})", sites))
+                Some(format!("[static-with-eval] `{src}` contains an evaluation outside closures but is emitted as a static value (sites child,attr,view-child,view-attr,view-hyphen,view-prop,view-quoted = {:?})", sites))
             } else {
                 None
             };
